@@ -80,6 +80,9 @@ MODELS = [
     ('top_list_enum', List[Union[Z.Color, int]], [Z.Color], [
         Q(S('red'), B('true'), I(3))]),
     ('top_opt_date', Optional[datetime.date], [], [TS('2001-12-14')]),
+    # Any as a member of a Union (D24)
+    ('top_opt_any', Optional[Any], [], [M(k=Q(I(1)))]),
+    ('any_union', Z.AnyU, [Z.AnyU, Z.Sub], [M(a=M(k=I(1)), b=S('x'))]),
     ('typed', Z.Typed, [Z.Typed, Z.Ident], [
         M(paths=Q(S('tmp')), names=Q(S('a')), m1=M(k=S('x')),
           m2=M(k=S('v'))),
